@@ -3,7 +3,8 @@
 //
 //   parse <hex>   ->  ok <dump> | err <line> <col>          (text = the bytes + NUL, exactly sized heap copy)
 //   strip <hex>   ->  <hex of Json::stripComments>
-//   tostr <dump>  ->  <hex of Json::toString>
+//   tostr <dump>  ->  <hex of Json::toString>     (tostr only: also u<dec> uint, U<dec> uint64, <V,...> Array<Variant>)
+//   tostr D<hex>  ->  dbl | <hex>                  (double made from the number text: "dbl" when the output is -?digits.6digits)
 //   rt <dump>     ->  ok <dump of parse(toString(v))> <v' == v> | err <line> <col>
 //
 // dump grammar (one token, no blanks):
@@ -15,6 +16,7 @@
 #include <errno.h>
 #include <stdarg.h>
 #include <nstd/Debug.hpp>
+#include <nstd/Error.hpp>
 #include <nstd/Document/Json.hpp>
 
 // the library's ASSERTs stay enabled; a failing one prints here (Debug.cpp itself would pull in Process)
@@ -153,11 +155,49 @@ static bool readDec(const char*& p, long long lo, long long hi, long long& out)
   return true;
 }
 
+static bool extKinds; // tostr only: u<dec>, U<dec>, <V,...>
+
+static bool readUDec(const char*& p, unsigned long long hi, unsigned long long& out)
+{
+  const char* s = p;
+  if(*p < '0' || *p > '9') return false;
+  while(*p >= '0' && *p <= '9') ++p;
+  if(p - s > 20 || (p - s > 1 && *s == '0')) return false;
+  char tmp[32];
+  memcpy(tmp, s, p - s);
+  tmp[p - s] = 0;
+  errno = 0;
+  out = strtoull(tmp, 0, 10);
+  if(errno || out > hi) return false;
+  return true;
+}
+
 static bool readValue(const char*& p, Variant& out)
 {
   long long n;
+  unsigned long long un;
   switch(*p)
   {
+  case 'u': if(!extKinds) return false; ++p; if(!readUDec(p, UINT_MAX, un)) return false; out = Variant((uint)un); return true;
+  case 'U': if(!extKinds) return false; ++p; if(!readUDec(p, ULLONG_MAX, un)) return false; out = Variant((uint64)un); return true;
+  case '<':
+    {
+      if(!extKinds) return false;
+      ++p;
+      Array<Variant> a;
+      if(*p == '>') { ++p; out = Variant(a); return true; }
+      for(;;)
+      {
+        Variant e;
+        if(!readValue(p, e)) return false;
+        a.append(e);
+        if(*p == ',') { ++p; continue; }
+        if(*p == '>') { ++p; break; }
+        return false;
+      }
+      out = Variant(a);
+      return true;
+    }
   case 'n': ++p; out = Variant(); return true;
   case 't': ++p; out = Variant(true); return true;
   case 'f': ++p; out = Variant(false); return true;
@@ -219,26 +259,74 @@ static bool readDump(const char* tok, Variant& out)
   return readValue(p, out) && *p == 0;
 }
 
+// every entry point of the API must give the result of a fresh Json::Parser on the exactly sized text:
+// Parser::parse(const String&), a long-lived Parser that has parsed other texts before (no state leaks from
+// one parse to the next), the static Json::parse(const char*) / Json::parse(const String&) and the error text
+// they leave in Error ("Syntax error at line L, column C: <Parser::getErrorString()>").
+static Json::Parser* sharedParser;
+
 static void doParse(const char* text, const Variant* original)
 {
   Json::Parser parser;
   Variant v;
-  if(parser.parse(text, v))
+  bool ok = parser.parse(text, v);
+  size_t start = obLen;
+  const char* mismatch = 0;
+  char pos[64];
+  snprintf(pos, sizeof(pos), "err %d %d", parser.getErrorLine(), parser.getErrorColumn());
+  if(ok)
   {
     obStr("ok ");
     dump(v);
-    if(original)
-    {
-      bool e = v == *original, n = v != *original;
-      obStr(e == !n ? (e ? " 1" : " 0") : " inconsistent");
-    }
   }
   else
+    obStr(pos);
+  size_t len = obLen - start;
   {
-    char num[64];
-    snprintf(num, sizeof(num), "err %d %d", parser.getErrorLine(), parser.getErrorColumn());
-    obStr(num);
+    char* first = (char*)malloc(len + 1);
+    memcpy(first, ob + start, len);
+    for(int k = 0; k < 4 && !mismatch; ++k)
+    {
+      Variant w;
+      bool ok2;
+      int l2 = 0, c2 = 0;
+      String text2(text, strlen(text)); // String copy of the text
+      switch(k)
+      {
+      case 0: { Json::Parser q; ok2 = q.parse(text2, w); l2 = q.getErrorLine(); c2 = q.getErrorColumn(); } break;
+      case 1:
+        if(!sharedParser) sharedParser = new Json::Parser;
+        ok2 = sharedParser->parse(text, w); l2 = sharedParser->getErrorLine(); c2 = sharedParser->getErrorColumn();
+        break;
+      case 2: ok2 = Json::parse(text, w); break;
+      default: ok2 = Json::parse(text2, w); break;
+      }
+      size_t s2 = obLen;
+      if(ok2) { obStr("ok "); dump(w); }
+      else if(k < 2) { char num[64]; snprintf(num, sizeof(num), "err %d %d", l2, c2); obStr(num); }
+      else
+      {
+        // the static functions report through Error
+        char want[600];
+        snprintf(want, sizeof(want), "Syntax error at line %d, column %d: %s", parser.getErrorLine(), parser.getErrorColumn(),
+          (const char*)parser.getErrorString());
+        String got = Error::getErrorString();
+        if(ok || strcmp(want, (const char*)got) != 0) mismatch = "static-error-text";
+        obLen = s2;
+        continue;
+      }
+      if(obLen - s2 != len || memcmp(ob + s2, first, len) != 0)
+        mismatch = k == 0 ? "Parser::parse(String)" : k == 1 ? "reused-Parser" : k == 2 ? "Json::parse(char*)" : "Json::parse(String)";
+      obLen = s2;
+    }
+    free(first);
   }
+  if(ok && original)
+  {
+    bool e = v == *original, n = v != *original;
+    obStr(e == !n ? (e ? " 1" : " 0") : " inconsistent");
+  }
+  if(mismatch) { obStr(" api-mismatch:"); obStr(mismatch); }
   obFlush();
 }
 
@@ -269,9 +357,27 @@ int main()
       free(text);
       obFlush();
     }
+    else if(hxIs(l, "tostr", 1) && l.tok[1][0] == 'D')
+    {
+      // a double made from the number text; observable: is the output of the form -?digits.dddddd (what "%f" gives for a finite value)
+      const char* p = l.tok[1] + 1;
+      String txt;
+      if(!readHexString(p, txt) || *p) { obStr("bad-op"); obFlush(); continue; }
+      String s = Json::toString(Variant(txt.toDouble()));
+      const char* q = s;
+      size_t n = s.length(), i = 0, digits = 0, frac = 0;
+      if(i < n && q[i] == '-') ++i;
+      while(i < n && q[i] >= '0' && q[i] <= '9') ++i, ++digits;
+      bool shape = digits > 0 && i < n && q[i] == '.';
+      if(shape) { ++i; while(i < n && q[i] >= '0' && q[i] <= '9') ++i, ++frac; }
+      shape = shape && frac == 6 && i + 1 == n && q[i] == '\n';
+      if(shape) obStr("dbl"); else obHex(q, n);
+      obFlush();
+    }
     else if(hxIs(l, "tostr", 1) || hxIs(l, "rt", 1))
     {
       Variant v;
+      extKinds = l.tok[0][0] == 't';
       if(!readDump(l.tok[1], v)) { obStr("bad-op"); obFlush(); continue; }
       String s = Json::toString(v);
       if(l.tok[0][0] == 't')
